@@ -46,6 +46,8 @@ func (w *World) Exec(st *Step) (viol *Violation) {
 		return w.execMap(st)
 	case "m.setfail":
 		return w.execSetFail(st)
+	case "failstor":
+		return w.execFailStorable(st)
 	case "settype":
 		return w.execSetType(st)
 	case "count":
@@ -150,6 +152,9 @@ func (w *World) execArray(st *Step) *Violation {
 
 	if st.Op == "a.oob" {
 		idx := n + st.OOB
+		if st.End >= n && st.End != 0 {
+			idx = st.End // absolute (huge) index: 2^31, 2^32, 2^63, 2^64-1 ...
+		}
 		var err error
 		// the value of a rejected set/insert may be one whose Storable() has side effects (a string too
 		// large to inline is moved to its own slab): a request rejected for its index must not get that far
@@ -163,7 +168,9 @@ func (w *World) execArray(st *Step) *Violation {
 		case "set":
 			_, err = a.Set(idx, val)
 		case "insert":
-			idx++
+			if idx != ^uint64(0) {
+				idx++
+			}
 			err = a.Insert(idx, val)
 		case "remove":
 			_, err = a.Remove(idx)
@@ -628,5 +635,77 @@ func (w *World) execSetFail(st *Step) *Violation {
 		}
 	}
 	w.result("msetfail")
+	return nil
+}
+
+// execFailStorable: a mutation whose value cannot produce its storable (the value's own Storable() fails).
+// The request must return an error and, like on a plain sequence / dictionary, change nothing.
+func (w *World) execFailStorable(st *Step) *Violation {
+	c := w.Model.Conts[st.C]
+	if c == nil {
+		return nil
+	}
+	h, v := w.handle(c)
+	if v != nil {
+		return v
+	}
+	mv, ok := scalarOf(st.V)
+	if !ok {
+		return nil
+	}
+	val, _ := scalarValueOf(mv)
+	class := resClass(c)
+	w.Ctl.Reset()
+	w.Ctl.FailAt["storable"] = 1
+	var err error
+	var what string
+	if c.IsMap {
+		km, ok := scalarOf(st.K)
+		if !ok {
+			w.Ctl.Reset()
+			return nil
+		}
+		what = "Set(" + describe(km) + ")"
+		_, err = h.(*atree.OrderedMap).Set(w.cmp, w.hip, w.valueOfKey(km), val)
+	} else {
+		a := h.(*atree.Array)
+		n := uint64(len(c.Elems))
+		switch st.Sub {
+		case "set":
+			if n == 0 {
+				w.Ctl.Reset()
+				return nil
+			}
+			what = "Set"
+			_, err = a.Set(st.Pos%n, val)
+		case "insert":
+			what = "Insert"
+			err = a.Insert(st.Pos%(n+1), val)
+		default:
+			what = "Append"
+			err = a.Append(val)
+		}
+	}
+	fired := w.Ctl.Fired["storable"]
+	w.Ctl.Reset()
+	if fired == 0 {
+		// the value's Storable() was never asked (cannot happen for scalars): treat as harness trouble
+		return w.viol("harness", "failstor: Storable() was not called")
+	}
+	w.Stats.Inc("fault.callback.storable")
+	if err == nil {
+		return w.viol(class, "container #%d: %s with a value whose Storable() failed returned no error", c.CID, what)
+	}
+	// unchanged: count now, content at the next deep comparison
+	var cnt uint64
+	if c.IsMap {
+		cnt = h.(*atree.OrderedMap).Count()
+	} else {
+		cnt = h.(*atree.Array).Count()
+	}
+	if cnt != uint64(c.Count()) {
+		return w.viol(class, "container #%d: Count()=%d after a %s that failed because the value had no storable, model %d", c.CID, cnt, what, c.Count())
+	}
+	w.result("failstor")
 	return nil
 }
